@@ -74,9 +74,9 @@ CHECKS = {
         ref="DESIGN.md section 3 C07"),
     "C08": dict(
         engine="svh",
-        text="All 579 legal signatures with up to 5 parameters over positional-only, positional-or-keyword, defaults, *args, bare *, keyword-only and **kwargs (quick: all with <=2 parameters + a seeded sample of 260; thorough: all) x call shapes "
+        text="All 579 legal signatures with up to 5 parameters over positional-only, positional-or-keyword, defaults, *args, bare *, keyword-only and **kwargs (quick: all with <=2 parameters + a seeded sample of 260, 140 call shapes each; thorough: all signatures, up to 700 call shapes each) x call shapes "
              "(0-4 positional, 0-3 named incl. unknown names, *seq of length 0-3, **map of size 0-3 with overlapping names) are bound by CPython and by starlark-rust on thirteen call paths: direct, through a variable, struct field, partial, "
-             "frozen-and-loaded def, host eval_function, inlinable bodies called from an importer and locally, calls split across partial() (in module, frozen-and-loaded, from the host; a repeated pre-bound keyword must fail), native functions and natives through a variable; ok/fail and the tuple of bound values must agree. Held on the calls executed; exhaustive over the stated space in thorough.",
+             "frozen-and-loaded def, host eval_function, inlinable bodies called from an importer and locally, calls split across partial() (in module, frozen-and-loaded, from the host; a repeated pre-bound keyword must fail), native functions and natives through a variable; ok/fail and the tuple of bound values must agree. Held on the calls executed (the full product of call shapes and paths is sampled, not exhausted).",
         note="trusted: CPython's call binding as the statement of the call rules; messages are never compared; native coverage is a fixed family of 10 natives",
         technique="differential oracle vs reference call semantics over an enumerated signature x call-shape x call-path space",
         ref="DESIGN.md section 3 C08"),
